@@ -187,7 +187,7 @@ def run(ctx):
             if i % 5 == 0 and not ctx.time_left():
                 ctx.count('stopped_by_time_budget')
                 break
-            k3dom = rng.random() < .25
+            k3dom = 'force' if i % 8 == 5 else rng.random() < .25
             pz = tzzoo.gen_posix(rng, k3_domain=k3dom)
             s = PZ.render(pz, with_times=(rng.random() < .7, rng.random() < .7))
             valid.append(s)
